@@ -323,6 +323,11 @@ func Worker(t *testing.T, a WorkerArgs) {
 			for _, l := range s.Leaked {
 				sum.Leaks[l]++
 			}
+			for id, c := range s.SiteHits {
+				if id > 0 && id < 1_000_000 { // sites of the instrumented sources (the shims of sync, atomic, ... have fixed ids above)
+					sum.SiteHits[simrt.SiteName(id)] += c
+				}
+			}
 			sum.Classes[string(s.Class)]++
 		}
 		if r.nontrivial {
